@@ -12,7 +12,7 @@ For each view:
 """
 import re
 from .model import model
-from .vg import VG, tstr, subterms, op, lit, is_some, TRUE, conj, exits_value, neg_cond
+from .vg import VG, tstr, subterms, op, lit, is_some, TRUE, FALSE, conj, exits_value, neg_cond
 from .terms import subst_in, free_ins
 from .solve import Ctx, entails, loop_hyps, norm_lens, Hyps, entails_h
 from .sir import canon, loc, walk
@@ -33,12 +33,50 @@ def field_types(F, view):
             ty = fld['ty']
             if 'param' in ty and ty['param'] in bind:
                 ty = bind[ty['param']]
-            out[prefix + fld['name']] = ty
-            if ty.get('adt') in F.adts and ty.get('adt') != adt_path:
-                gens = F.adts[ty['adt']]['generics']
-                args = [bind.get(a['param'], a) if 'param' in a else a for a in ty.get('args', [])]
-                rec(ty['adt'], prefix + fld['name'] + '.', dict(zip(gens, args)), depth + 1)
+            put(prefix + fld['name'], ty, adt_path, bind, depth)
+
+    def put(path, ty, adt_path, bind, depth):
+        out[path] = ty
+        if ty.get('adt') in F.adts and ty.get('adt') != adt_path:
+            gens = F.adts[ty['adt']]['generics']
+            args = [bind.get(a['param'], a) if 'param' in a else a for a in ty.get('args', [])]
+            rec(ty['adt'], path + '.', dict(zip(gens, args)), depth + 1)
+        elif 'tuple' in ty:
+            # tuple-typed field: its components are places `f.0`, `f.1`, ..
+            for i, x in enumerate(ty['tuple']):
+                if 'param' in x and x['param'] in bind:
+                    x = bind[x['param']]
+                put('%s.%d' % (path, i), x, adt_path, bind, depth)
     rec(view.adt_path, '', {}, 0)
+    return out
+
+
+def unmodelled_buffers(F, view):
+    """[(field path, container description)] for growable sequences that sit inside a container the value graph does not
+    track as a place (Option<Vec<..>>, [Vec<..>; n], Box<Vec<..>>, Vec<Vec<..>> elements): no length bound can be inferred
+    for them, so C18 cannot vouch for the view."""
+    out = []
+
+    def scan(ty, where, top):
+        if not isinstance(ty, dict):
+            return
+        if is_seq_tyj(ty):
+            if not top:
+                out.append(where)
+            for a in ty.get('args', []):
+                scan(a, (where[0], where[1] + '<elements>'), False)
+            return
+        if ty.get('adt') in F.adts:
+            return  # local ADTs are expanded by field_types
+        if 'tuple' in ty:
+            return  # expanded by field_types
+        for key in ('array', 'ref', 'ptr', 'slice'):
+            if key in ty and isinstance(ty[key], dict):
+                scan(ty[key], (where[0], where[1] + '[' + key + ']'), False)
+        for a in ty.get('args', []) or []:
+            scan(a, (where[0], where[1] + '<' + str(ty.get('adt', '?')).split('::')[-1] + '>'), False)
+    for path, ty in field_types(F, view).items():
+        scan(ty, (path, ''), True)
     return out
 
 
@@ -196,10 +234,34 @@ class Bounds:
         return alive
 
     # ---------------------------------------------------------------- obligations
-    def goals_of(self, ev):
+    def goals_of(self, ev, is_ctor=False, ctx=None):
         """[(kind, goal term, description)] for one event."""
         k = ev.kind
         d = ev.data
+        if k == 'panic':
+            if is_ctor:
+                return []   # a constructor may reject its arguments: that is the documented contract (C15 quantifies over accepted N)
+            return [('explicit-panic', FALSE, 'explicit %s!() must sit on an infeasible path' % d[0])]
+        if k in ('assert', 'debug_assert') and not is_ctor:
+            name, args = d
+            goals = []
+            if name == 'assert' and args:
+                for c in conjuncts(args[0]):
+                    if structural_cond(c, ctx):
+                        goals.append(('assert-int', c, 'integer/structural assertion %s' % tstr(c)[:70]))
+            elif name in ('assert_eq', 'assert_ne') and len(args) == 2:
+                c = op('eq' if name == 'assert_eq' else 'ne', args[0], args[1])
+                if structural_cond(c, ctx):
+                    goals.append(('assert-int', c, 'integer/structural assertion %s' % tstr(c)[:70]))
+            return goals
+        if k in ('int_add', 'int_mul') and len(d) >= 3:
+            bits = int_bits(d[2])
+            if bits is not None and bits < 64:
+                mx = (1 << (bits - (1 if str(d[2]).startswith('i') else 0))) - 1
+                o = 'iadd' if k == 'int_add' else 'imul'
+                return [('narrow-int-overflow', op('le', op(o, d[0], d[1]), lit(mx, 'i')),
+                         '%s %s %s on a %s cannot exceed %d' % (tstr(d[0])[:40], '+' if k == 'int_add' else '*', tstr(d[1])[:20], d[2], mx))]
+            return []
         if k == 'int_sub':
             return [('usize-sub', op('ge', d[0], d[1]), '%s - %s cannot underflow' % (tstr(d[0])[:60], tstr(d[1])[:30]))]
         if k == 'index':
@@ -219,13 +281,13 @@ class Bounds:
             return [('int-div', op('ge', d[1], lit(1, 'i')), 'integer divisor non-zero')]
         return []
 
-    def discharge(self, vg, entry_hyps, R, fn_label, floor_counter):
+    def discharge(self, vg, entry_hyps, R, fn_label, floor_counter, is_ctor=False):
         ctx = self.ctx(vg)
         n = 0
         base = Hyps(entry_hyps, ctx)
         hcache = {}
         for ev in vg.events:
-            for (kind, goal, desc) in self.goals_of(ev):
+            for (kind, goal, desc) in self.goals_of(ev, is_ctor, ctx):
                 n += 1
                 H = hcache.get(id(ev.pc))
                 if H is None or H[0] is not ev.pc:
@@ -245,6 +307,44 @@ class Bounds:
                      loc(ev.node) if ev.node else self.v.file)
                 floor_counter[kind] = floor_counter.get(kind, 0) + 1
         return n
+
+
+def conjuncts(c):
+    if isinstance(c, tuple) and c and c[0] == 'op' and c[1] == 'and':
+        r = []
+        for x in c[2]:
+            r.extend(conjuncts(x))
+        return r
+    return [c]
+
+
+def int_bits(ty):
+    m = re.match(r'^[ui](8|16|32|64|128|size)$', str(ty))
+    if not m:
+        return None
+    return 64 if m.group(1) == 'size' else int(m.group(1))
+
+
+def structural_cond(c, ctx):
+    """Is c a condition over integers / presence / lengths (decided by the entailment engine), as opposed to a condition
+    over float values (decided by the interval census in e_ready)?"""
+    from .solve import is_int_cmp
+    if not (isinstance(c, tuple) and c):
+        return False
+    if c[0] == 'op' and c[1] == 'not':
+        return structural_cond(c[2][0], ctx)
+    if c[0] == 'op' and c[1] in ('and', 'or'):
+        return all(structural_cond(x, ctx) for x in c[2])
+    if c[0] == 'op' and c[1] in ('is_some', 'is_empty'):
+        return True
+    if c[0] == 'is_some':
+        return True
+    if c[0] == 'lit' and c[2] == 'b':
+        return True
+    try:
+        return bool(is_int_cmp(c, ctx))
+    except Exception:
+        return False
 
 
 def predicate_counter(B, ev):
@@ -334,6 +434,10 @@ def _shape(goal):
     return s
 
 
+PANIC_ENTRY_PREFIXES = ('std::rt::panic', 'std::rt::begin_panic', 'core::panicking::', 'std::panicking::', 'std::process::abort', 'std::process::exit',
+                        'std::intrinsics::abort', 'std::hint::unreachable_unchecked', 'std::hint::assert_unchecked')
+
+
 PANICKY_CALLEES = ('std::option::Option::unwrap', 'std::option::Option::expect', 'std::ops::Index::index',
                    'std::ops::IndexMut::index_mut', 'std::vec::Vec::remove', 'std::vec::Vec::swap_remove',
                    'std::vec::Vec::insert', 'std::result::Result::unwrap', 'std::result::Result::expect',
@@ -371,6 +475,23 @@ def run_bounds(F, R, want_c15=True, want_c18=True):
                      ('inductive bound ' + tstr(bounds[0])) if bounds else
                      'no inductive upper bound in terms of constructor parameters survives: the buffer can grow with the stream length',
                      v.file)
+            for (path, where) in unmodelled_buffers(F, v):
+                R.ob('M1-bounded', '%s:%s%s' % (v.name, path, where), False,
+                     'growable buffer nested in %s%s: the analysis does not track its length, so no bound can be established' % (path, where), v.file)
+            # constructs the value graph does not understand may hide growth: fail closed
+            for vg, label in [(B.m.up_vg, 'update'), (B.m.last_vg, 'last')]:
+                for what, where in vg.unknowns:
+                    R.violation('M0-unknown', '%s:%s:%s' % (v.name, label, what), 'construct not understood by the value graph (%s): the buffer analysis is incomplete' % what, where)
+                for ev in vg.events:
+                    if ev.kind in ('grow', 'grow-unbounded'):
+                        pl = ev.data[0]
+                        root = pl
+                        while root and root[0] in ('payload', 'elem', 'front', 'back'):
+                            root = root[1]
+                        tracked = root and ((root[0] == 'field' and root[1] in B.buffers and pl is root) or root[0] == 'local')
+                        if not tracked:
+                            R.ob('M1-bounded', '%s:%s:grow-on-untracked-place' % (v.name, label), False,
+                                 'push/insert on %s, which is not a tracked buffer field nor a function-local: its growth is not bounded by any inferred invariant' % (pl,), loc(ev.node))
             # allocations: size must be bounded by parameters under the invariant
             for (vg, label) in ((B.m.up_vg, 'update'), (B.m.last_vg, 'last')):
                 ctx = B.ctx(vg)
@@ -395,7 +516,7 @@ def run_bounds(F, R, want_c15=True, want_c18=True):
             n += B.discharge(B.m.last_vg, entry, R, 'last', counters)
             for mm in B.m.ctor_models:
                 pre_args = [op('ge', ('arg', a), lit(1, 'i')) for a in B.int_args]
-                n += B.discharge(mm['vg'], pre_args, R, mm['fn'].name, counters)
+                n += B.discharge(mm['vg'], pre_args, R, mm['fn'].name, counters, is_ctor=True)
             for h in v.helpers:
                 if h.vis.startswith('Public') and h.trait is None:
                     vg = VG(F, v)
@@ -436,6 +557,7 @@ def mir_crosscheck(F, R):
                     seen.setdefault(('line', sp[0], sp[1]), set()).add(ev.kind)
     n_assert = 0
     n_calls = 0
+    n_panic = 0
     fnmeta = {f.defpath: f for f in F.fns}
     for mb in F.raw['mir']:
         d = mb['def']
@@ -457,6 +579,17 @@ def mir_crosscheck(F, R):
                  '%s:%d' % (sp[0], sp[1]))
         for c in mb['calls']:
             name = canon(c['callee']['def'])
+            if name.startswith(PANIC_ENTRY_PREFIXES):
+                # every explicit panic entry point (panic!/unreachable!/assert!/debug_assert! expansions) must be an event
+                # the value graph recorded, so that it has a verdict (explicit-panic / assert-int / Q4-assert / finite-assert)
+                n_panic += 1
+                sp = tuple(c['sp'])
+                kinds = seen.get(sp[:3], set()) | seen.get(('line', sp[0], sp[1]), set())
+                ok = bool(kinds & {'panic', 'assert', 'debug_assert'})
+                R.ob('X-mir-panic', '%s:%s' % (canon(d), name.split('::')[-1]), ok,
+                     'MIR call %s maps to a recorded panic/assert event' % name if ok else
+                     'MIR call to %s at %s:%d is a panic edge the value graph did not record' % (name, sp[0], sp[1]), '%s:%d' % (sp[0], sp[1]))
+                continue
             if name not in PANICKY_CALLEES:
                 continue
             if any(m.startswith('macro:') and m.split(':')[-1] in ('debug_assert', 'assert', 'debug_assert_ne', 'assert_ne', 'panic') for m in c.get('mac', [])):
@@ -471,3 +604,4 @@ def mir_crosscheck(F, R):
                  'MIR call to %s at %s:%d has no corresponding judged obligation' % (name, sp[0], sp[1]), '%s:%d' % (sp[0], sp[1]))
     R.extra['mir_asserts'] = n_assert
     R.extra['mir_panicky_calls'] = n_calls
+    R.extra['mir_panic_entry_calls'] = n_panic
